@@ -37,7 +37,7 @@ def aa_payload(cmd, payload):
     return bytes(((cmd[1] * 17 + i) & 0xFF) for i in range(20))
 
 
-AA_CMDS = [("010200", "0182"), ("010600", "0186"), ("010900", "0189"), ("011a03070104", "019a")]
+AA_CMDS = [("010200", "0182"), ("010600", "0186"), ("010900", "0189"), ("011a03070104", "019a"), ("011a03055001", "019a")]
 
 
 def run_case(acc: Acc, case):
@@ -164,6 +164,14 @@ def enum_job(job):
             _apply(acc, case)
             if len(acc.samples) < 1 and script[0][0] == "drop" and o2 == 8:
                 acc.sample(case)
+    # long queues: 3-5 callers whose answers are slow but in time, so that the last caller waits on the lock for longer than
+    # a whole request budget (retries + 1 timeouts) before it may transmit
+    for n in (3, 4, 5):
+        for d in (12, 15):
+            for offsets in ([0] * n, list(range(n)), [0, 0] + [5] * (n - 2)):
+                for extra in ([], [["frag", 9, 2, d]], [["drop"]]):
+                    _apply(acc, {"transport": transport, "keep": keep, "T": T, "R": R, "latency": latency, "offsets": offsets,
+                                 "script": extra, "default": ["answer", d]})
     if latency == 0:   # the same through an inverter object after 0..4 completely failed requests
         for streak in (0, 1, 3, 4):
             for o2 in (0, 1, 8, 17):
